@@ -24,7 +24,7 @@ if [ -n "${VERIF_PATCHES:-}" ]; then
   mkdir -p "$VERIF_ROOT"
   cp known_findings.json "$VERIF_ROOT/" 2>/dev/null
   mkdir -p "$VERIF_ROOT/checks/$id"; cp "checks/$id/findings.json" "$VERIF_ROOT/checks/$id/" 2>/dev/null
-  trap 'rm -rf "build/patched-$tag" "build/base-$tag.json" "build/overlay-$tag" "build/overlay-$tag.json" "build/$tag" "$VERIF_ROOT"' EXIT
+  trap 'rm -rf "build/patched-$tag" "build/base-$tag.json" "build/overlay-$tag" "build/overlay-$tag.json" "build/$tag" "build/$tag-race" "build/$tag-race.buildlog" "$VERIF_ROOT"' EXIT
 fi
 ovl=()
 spec="-"
@@ -35,6 +35,16 @@ if [ "$spec" != "-" ] || [ ${#base[@]} -gt 0 ]; then
   ovl=(-overlay "build/overlay-$tag.json")
 fi
 go build -tags verif "${ovl[@]}" -o "build/$tag" "./checks/$id" || { echo "HARNESS-ERROR: build of checks/$id failed"; exit 2; }
+# optional free-running -race variant (secondary monitor): checks/<id>/race/main.go, built without the shim rewrites
+if [ -f "checks/$id/race/main.go" ]; then
+  rovl=()
+  [ ${#base[@]} -gt 0 ] && rovl=(-overlay "build/base-$tag.json")
+  if CGO_ENABLED=1 go build -race "${rovl[@]}" -o "build/$tag-race" "./checks/$id/race" 2>"build/$tag-race.buildlog"; then
+    export VERIF_RACE_BIN="/verif/build/$tag-race"
+  else
+    echo "note: -race variant did not build (see build/$tag-race.buildlog); continuing without it" >&2
+  fi
+fi
 [ -n "${VERIF_BUILD_ONLY:-}" ] && exit 0
 "build/$tag" "$tier" "$@"
 rc=$?
